@@ -169,7 +169,12 @@ func line(r record, seq, carrier int) string {
 		if r.tag == "odd-json" {
 			return `{"_SYSTEMD_UNIT":"apparmor.service","MESSAGE":[27,91,49]}` + "\n" + `"apparmor"`
 		}
-		b, _ := json.Marshal(map[string]string{"MESSAGE": "audit: type=1400 audit(" + ts + "): " + body, "_TRANSPORT": "kernel"})
+		// journald records reach the journal from several sources: the field says which, the reader must not care
+		m := map[string]string{"MESSAGE": "audit: type=1400 audit(" + ts + "): " + body, "_TRANSPORT": "kernel"}
+		if id := []string{"kernel", "", "audit", "audisp-syslog", "dbus-daemon", "rsyslogd"}[seq%6]; id != "" {
+			m["SYSLOG_IDENTIFIER"] = id
+		}
+		b, _ := json.Marshal(m)
 		return string(b)
 	}
 }
